@@ -158,6 +158,29 @@ fn core_part(tier: Tier) -> Part<'static, Sys> {
     }
 }
 
+/// text and REP runs of every length (well beyond 64) from every placement - region x origin
+/// mode x cursor above / inside / below it, wrap-pending - with insert mode, auto-wrap off and
+/// the other charset: the layered alphabet of C04's realistic-screen sweep, all invariants
+fn alpha_runs(cfg: &Cfg) -> Vec<Op> {
+    super::sweep::layered(super::sweep::wide_placements(cfg), super::sweep::wide_print_funcs(cfg))
+}
+
+fn runs_part(tier: Tier) -> Part<'static, Sys> {
+    Part {
+        name: "text-and-rep-runs-from-every-placement",
+        sys: &Sys,
+        cfgs: match tier {
+            Tier::Quick => cfgs(&[(66, 5)], &[None]),
+            Tier::Thorough => cfgs(&[(66, 5), (130, 4), (20, 6)], &[None, Some(0)]),
+        },
+        alphabet: &alpha_runs,
+        depth: 2,
+        seconds: tier.pick(20.0, 1800.0),
+        validated: false,
+        nontrivial: None,
+    }
+}
+
 fn tabs_part(tier: Tier) -> Part<'static, Sys> {
     Part {
         name: "tab-moves-across-width-changes",
@@ -396,6 +419,7 @@ pub fn run(ctx: &Ctx) -> Report {
     run_part(ctx, &mut rep, &deep);
     run_part(ctx, &mut rep, &core_part(ctx.tier));
     run_part(ctx, &mut rep, &tabs_part(ctx.tier));
+    run_part(ctx, &mut rep, &runs_part(ctx.tier));
     extreme_sizes(ctx, &mut rep);
     every_height_pair(ctx, &mut rep);
     resize_at_every_fill_level(ctx, &mut rep);
@@ -428,6 +452,7 @@ pub fn replay(ctx: &Ctx, v: &Value) -> bool {
         "alt-resize-deep" => replay_part(ctx, &deep, v),
         "save-alt-resize-core-deep" => replay_part(ctx, &core_part(tier), v),
         "tab-moves-across-width-changes" => replay_part(ctx, &tabs_part(tier), v),
+        "text-and-rep-runs-from-every-placement" => replay_part(ctx, &runs_part(tier), v),
         p => {
             println!("unknown part {}", p);
             false
